@@ -60,6 +60,7 @@ theorem c05_on_source (ls : List Proc.Label) (s : Proc.PSt)
 
 
 
+
 -- BEGIN PINS (written by bin/mkpins; do not edit by hand)
 /-- the Go functions this property's model and obligations were written against have exactly the
 pinned skeletons (SHA-256 prefix of the atom list) -/
